@@ -186,3 +186,6 @@ def run(ctx):
     ctx.stats = core.run_shards("harness.checks.c10", "shard", jobs)
     sizes = [1, 85, 255, 256, 257, 1000, 1001, 1025] if ctx.tier == "quick" else [1, 85, 255, 256, 257, 999, 1000, 1001, 1024, 1025, 2047, 2501, 4097, 10001]
     ctx.stats.merge_json(core.run_shards("harness.checks.c10", "large_shard", [dict(sizes=sizes[i::8]) for i in range(8)]).to_json())
+    # the same encoder in an interpreter started with -O (assert statements stripped)
+    ctx.stats.merge_json(core.run_shards_optimised("harness.checks.c10", "large_shard", [dict(sizes=[1, 85])]).to_json())
+    ctx.stats.merge_json(core.run_shards_optimised("harness.checks.c10", "shard", [dict(seed=ctx.seed * 1000 + 77, n_examples=40, programs=False)]).to_json())
